@@ -46,6 +46,7 @@ type Exec struct {
 	usedAfter         map[types.Object]bool
 	localAssigns      map[*types.Var][]ast.Expr
 	assignsSeen       map[ast.Node]bool
+	assignNodes       map[*types.Var][]ast.Node // non-defining assignments to each local
 	closesChans       []Term // channels the goroutine under proof may close without owning them (closes=)
 	inputChans        []Term // the channels declared as inputs of the goroutine under proof
 	extraInv          map[ast.Node][]Clause // engine-derived invariants of counting loops
@@ -830,6 +831,7 @@ func (x *Exec) genericLoop(st *State, fr *Frame, node ast.Node, body []ast.Stmt,
 	}
 	if unbounded {
 		it.ghosts["obsCancel"] = tFalse
+		it.ghosts["iterProgress"] = tFalse
 	}
 	d0 := decr(it)
 	stutterCheck := false
@@ -845,6 +847,11 @@ func (x *Exec) genericLoop(st *State, fr *Frame, node ast.Node, body []ast.Stmt,
 				oc = tFalse
 			}
 			x.oblige(e, "progress", fmt.Sprintf("loop%d:observes-cancel", ord), oc, node, "every iteration of an unbounded loop observes cancellation (select with a ctx.Done arm)")
+			ip, ok := e.ghosts["iterProgress"]
+			if !ok {
+				ip = tFalse
+			}
+			x.oblige(e, "progress", fmt.Sprintf("loop%d:no-busy-wait", ord), ip, node, "every iteration of an unbounded loop communicates or blocks somewhere (an iteration that falls through a default arm and does nothing else spins)")
 		}
 		checkInv(e, "inv-preserve")
 		if stutterCheck {
@@ -869,12 +876,18 @@ func (x *Exec) genericLoop(st *State, fr *Frame, node ast.Node, body []ast.Stmt,
 			}
 		}
 	}
+	kOut := func(e *State) {
+		if _, has := e.ghosts["iterProgress"]; has {
+			e.ghosts["iterProgress"] = tTrue // a completed inner loop counts as progress of the outer one
+		}
+		k(e)
+	}
 	lfr := *fr
-	lfr.brk = func(e *State) { k(e) }
+	lfr.brk = func(e *State) { kOut(e) }
 	lfr.cont = func(e *State) { post(e, preserve) }
 	head(it.clone(), func(b *State) {
 		x.block(b, &lfr, body, func(e *State) { post(e, preserve) })
-	}, func(e *State) { k(e) })
+	}, func(e *State) { kOut(e) })
 }
 
 func (x *Exec) forStmt(st *State, fr *Frame, s *ast.ForStmt, k func(*State)) {
